@@ -264,3 +264,67 @@ def check_uids(obs):
             elif got != opened[:len(got)]:
                 bad.append(("uids", "%s() returned %r, not a prefix of the runs opened %r" % (x[1], got, opened)))
     return bad
+
+
+# ----------------------------------------------------------------------------- C12 extras
+
+NOT_ORDINARY = ("RequestStop", "RequestAbort", "FailedPause", "PlanHalt", "CancelledError", "GeneratorExit")
+DEV_CMDS = ("read", "set", "trigger", "stage", "unstage", "stop")
+
+
+def check_fault_responses(obs):
+    """C12 (i), first half: a device method that raises while the command of a message is calling it makes that
+    command answer the message with that exception."""
+    bad = []
+    results = list(obs.get("devcalls", []))
+    k = 0
+    cur = None          # (cmd, obj) of the message being processed
+    pending = None      # exception kind the current command must answer with
+    for x in obs["obs"]:
+        if x[0] == "msg":
+            if pending is not None:
+                bad.append(("fault-lost", "device raised %s inside %r but the command did not answer with it" % (pending, cur)))
+            cur, pending = (x[2]["cmd"], x[2]["obj"]), None
+        elif x[0] == "dev":
+            res = results[k][2] if k < len(results) else None
+            k += 1
+            if res and res[0] == "raise" and cur is not None and cur[0] == x[2] and cur[1] == x[1] and cur[0] in DEV_CMDS:
+                pending = res[1]
+        elif x[0] == "resp" and pending is not None:
+            if not (is_exn(x[1]) and x[1][1] == pending):
+                bad.append(("fault-lost", "device raised %s inside %r but the response is %r" % (pending, cur, x[1])))
+            pending = None
+        elif x[0] == "task" and pending is not None and str(x[1]).startswith("future"):
+            pending = None
+    return bad
+
+
+def check_unhandled(obs):
+    """C12 (iii): an ordinary exception that leaves the plan given to RE(...) ends the blocking call with it."""
+    bad = []
+    tapes = obs.get("tapes", {})
+    count = {}
+    expect = None
+    for x in obs["obs"]:
+        if x[0] == "plan_in" and x[1] < 1000:
+            n = count.get(x[1], 0)
+            count[x[1]] = n + 1
+            tape = tapes.get(str(x[1]), [])
+            if n < len(tape) and tape[n][1][0] == "raise" and tape[n][1][1] not in NOT_ORDINARY:
+                expect = tape[n][1][1]
+        elif x[0] == "out" and expect is not None:
+            if not (x[2] == "raise" and x[3] == expect):
+                bad.append(("swallowed", "the plan raised %s but %s() ended with %r" % (expect, x[1], x[2:4])))
+            expect = None
+    return bad
+
+
+def coq_and(terms):
+    """right-nested andb of Coq bool terms"""
+    terms = list(terms)
+    if not terms:
+        return "true"
+    out = "(%s)" % terms[-1]
+    for x in reversed(terms[:-1]):
+        out = "(andb (%s) %s)" % (x, out)
+    return out
